@@ -265,7 +265,11 @@ package bloomsearch
 
 // Every waiter is attempted exactly once, even after an earlier send failed.
 //@ func sendToChannelsWithContext[error]
-//@ props C05 C06
+//@ props C05 C06 C07
+// C07: the waiters of one flush are answered in list order (the list is in
+// acceptance order): the (k+1)-th delivery attempt of a round is for channels[k],
+// and it is made only after the k earlier ones have returned.
+//@ at call sendOptionalWithContext[error]#1 assert [C07] 0 <= ghost.attempts - old(ghost.attempts) && ghost.attempts - old(ghost.attempts) < len(channels) && ch == channels[ghost.attempts - old(ghost.attempts)]
 //@ entry ghost.sendRounds = ghost.sendRounds + 1
 //@ entry ghost.nilRounds = value == nil ? ghost.nilRounds + 1 : ghost.nilRounds
 //@ entry ghost.updateOKAtNilRound = value == nil ? ghost.updateOK : ghost.updateOKAtNilRound
@@ -299,6 +303,12 @@ package bloomsearch
 //@ ensures ghost.aborts + ghost.closeCalls <= old(ghost.aborts) + old(ghost.closeCalls) + 1
 //@ ensures ghost.aborts >= old(ghost.aborts) && ghost.closeCalls >= old(ghost.closeCalls)
 //@ ensures closeAttempted ==> ghost.closeCalls == old(ghost.closeCalls)
+// a writer that can discard its output is ALWAYS told to — also after a failed
+// Close: a rename-on-close writer whose Close failed at the directory sync has
+// already renamed the complete file into place, and only Abort removes it if
+// the tombstone fails too (C06: an error answer means the rows never show up).
+//@ ensures implements(writer, "interface{ Abort() error }") ==> ghost.aborts == old(ghost.aborts) + 1 && ghost.closeCalls == old(ghost.closeCalls)
+//@ ensures !implements(writer, "interface{ Abort() error }") ==> ghost.aborts == old(ghost.aborts)
 //@ ensures !closeAttempted ==> ghost.aborts + ghost.closeCalls == old(ghost.aborts) + old(ghost.closeCalls) + 1
 //@ ensures ghost.closeOK >= old(ghost.closeOK)
 
@@ -312,8 +322,13 @@ package bloomsearch
 //   - with the flush context already done: no store call at all (C08).
 //@ func (*BloomSearchEngine).handleFlush
 //@ appends fileMetadata.DataBlocks
-//@ props C05 C06 C08 C17
+//@ props C05 C06 C08 C09 C17
 //@ requires b != nil
+// C09: a flush is done by the flush worker itself, start to finish — store
+// calls, orphan cleanup and the answers to the waiters — and starts no goroutine:
+// the worker takes the next request only when this one is over, which is what
+// bounds the number of accepted-but-unanswered batches when a store stalls.
+//@ ensures [C09] ghost.gos == old(ghost.gos)
 //@ modifies heaps, $store, $answers
 // C17 (flush side): the same layout statement as the merge path, without a
 // ghost overflow flag. W is the mathematical number of bytes the output file's
@@ -395,7 +410,12 @@ package bloomsearch
 // waiters, and the actor's state is empty afterwards — nothing dropped, nothing
 // kept.
 //@ func (*BloomSearchEngine).flushBufferedData
-//@ props C05 C07
+//@ props C05 C07 C10
+//@ requires [C10] injective(partitionBuffers) && forall k1 str :: has(partitionBuffers, k1) ==> ref(get(partitionBuffers, k1)) >= $alloc
+//@ pred submap(m map[string]*partitionBuffer) = forall k1 str :: has(m, k1) ==> old(has(m, k1)) && get(m, k1) == old(get(m, k1))
+//@ loop 0 invariant [C10] submap(partitionBuffers)
+//@ loop 1 invariant [C10] submap(partitionBuffers)
+//@ ensures [C10] injective(partitionBuffers) && forall k1 str :: has(partitionBuffers, k1) ==> ref(get(partitionBuffers, k1)) >= $alloc
 //@ requires b != nil && doneChans != nil && bufferedRowCount != nil && bufferedBytes != nil && bufferStartTime != nil
 //@ requires arr(*doneChans) >= $alloc
 //@ ensures arr(*doneChans) >= $alloc
@@ -459,14 +479,19 @@ package bloomsearch
 //@ pred below(pb *partitionBuffer, e *BloomSearchEngine) = pb.rowCount < e.config.MaxRowGroupRows && pb.uncompressedSize < e.config.MaxRowGroupBytes
 //@ pred injective(m map[string]*partitionBuffer) = forall k1 str :: forall k2 str :: has(m, k1) && has(m, k2) && k1 != k2 ==> get(m, k1) != get(m, k2)
 //@ requires [C10] injective(partitionBuffers) && forall k1 str :: has(partitionBuffers, k1) ==> ref(get(partitionBuffers, k1)) >= $alloc
+//@ ensures [C10] injective(partitionBuffers) && forall k1 str :: has(partitionBuffers, k1) ==> ref(get(partitionBuffers, k1)) >= $alloc
 //@ loop 3 invariant [C10] forall key str :: $visited[key] ==> has(partitionBuffers, key)
 //@ loop 3 invariant [C10] injective(partitionBuffers) && forall k1 str :: has(partitionBuffers, k1) ==> ref(get(partitionBuffers, k1)) >= $alloc
+//@ loop 0 invariant [C10] injective(partitionBuffers) && forall k1 str :: has(partitionBuffers, k1) ==> ref(get(partitionBuffers, k1)) >= $alloc
+//@ loop 1 invariant [C10] injective(partitionBuffers) && forall k1 str :: has(partitionBuffers, k1) ==> ref(get(partitionBuffers, k1)) >= $alloc
+//@ loop 2 invariant [C10] injective(partitionBuffers) && forall k1 str :: has(partitionBuffers, k1) ==> ref(get(partitionBuffers, k1)) >= $alloc
+//@ loop 4 invariant [C10] injective(partitionBuffers) && forall k1 str :: has(partitionBuffers, k1) ==> ref(get(partitionBuffers, k1)) >= $alloc
 //@ loop 5 invariant [C10] forall key str :: has(partitionedRows, key) ==> has(partitionBuffers, key)
-//@ loop 5 invariant [C10] injective(partitionBuffers)
+//@ loop 5 invariant [C10] injective(partitionBuffers) && forall k1 str :: has(partitionBuffers, k1) ==> ref(get(partitionBuffers, k1)) >= $alloc
 //@ loop 6 invariant [C10] forall key str :: has(partitionedRows, key) ==> has(partitionBuffers, key)
-//@ loop 6 invariant [C10] injective(partitionBuffers)
+//@ loop 6 invariant [C10] injective(partitionBuffers) && forall k1 str :: has(partitionBuffers, k1) ==> ref(get(partitionBuffers, k1)) >= $alloc
 //@ loop 7 invariant [C10] forall key str :: has(partitionedRows, key) ==> has(partitionBuffers, key)
-//@ loop 7 invariant [C10] injective(partitionBuffers)
+//@ loop 7 invariant [C10] injective(partitionBuffers) && forall k1 str :: has(partitionBuffers, k1) ==> ref(get(partitionBuffers, k1)) >= $alloc
 //@ loop 5 invariant [C10] forall key str :: $visited[key] ==> has(partitionedRows, key)
 //@ loop 6 invariant [C10] forall key str :: $visited5[key] ==> has(partitionedRows, key)
 //@ loop 7 invariant [C10] forall key str :: $visited5[key] ==> has(partitionedRows, key)
@@ -484,7 +509,8 @@ package bloomsearch
 //@ loop 7 invariant [C18,C04] -1 <= $index && $index < len(b.config.MinMaxIndexes)
 //@ loop 7 invariant [C18,C04] forall ix in b.config.MinMaxIndexes[:$index + 1] :: has(row, ix) && cOK(row[ix]) ==> has(partitionBuffer.minMaxIndexes, ix) && get(partitionBuffer.minMaxIndexes, ix).Min <= cMin(row[ix]) && cMax(row[ix]) <= get(partitionBuffer.minMaxIndexes, ix).Max
 //@ requires b != nil && doneChans != nil && bufferedRowCount != nil && bufferedBytes != nil && bufferStartTime != nil
-//@ requires [C05] ctx == b.flushCtx
+// (C08: this is what lets Stop's deadline unwind an ack wedged on an abandoned done channel)
+//@ requires [C05,C08] ctx == b.flushCtx
 //@ requires arr(*doneChans) >= $alloc      // the pending list is existing memory, not something this call allocates
 //@ ensures arr(*doneChans) >= $alloc
 // C07 acceptance order: a retained waiter goes to the END of the pending list
@@ -521,10 +547,32 @@ package bloomsearch
 
 // The ingest actor hands every accepted request to processIngestRequest with the
 // flush context (its precondition), in the normal loop and in the shutdown drain.
+// C10 (time-based flush): the periodic check runs off ONE ticker, created with a
+// period of at most 100ms (the "small scheduling allowance") and never re-armed
+// or stopped while the worker runs — a Reset after every request would starve the
+// check under a steady stream of requests that return before the in-request time
+// check (empty batches, rejected rows).
+//@ ghostvar tickerResets int    // (*time.Ticker).Reset calls
+//@ ghostvar tickersMade int     // time.NewTicker calls
+//@ extern time.NewTicker
+//@ requires [C10] 0 < d && d <= 100000000
+//@ entry ghost.tickersMade = ghost.tickersMade + 1
+//@ modifies ghost.tickersMade
+//@ ensures result != nil && ghost.tickersMade == old(ghost.tickersMade) + 1
+//@ extern (*time.Ticker).Reset
+//@ entry ghost.tickerResets = ghost.tickerResets + 1
+//@ modifies ghost.tickerResets
+//@ ensures ghost.tickerResets == old(ghost.tickerResets) + 1
+//@ extern (*time.Ticker).Stop
+//@ modifies nothing
 //@ func (*BloomSearchEngine).ingestWorker
-//@ props C05
+//@ props C05 C08 C10
 //@ requires b != nil
 //@ modifies all
+//@ loop 0 invariant [C10] ghost.tickerResets == old(ghost.tickerResets) && ghost.tickersMade == old(ghost.tickersMade) + 1
+//@ loop 0 invariant [C10] injective(partitionBuffers) && forall k1 str :: has(partitionBuffers, k1) ==> ref(get(partitionBuffers, k1)) >= $alloc
+//@ loop 1 invariant [C10] injective(partitionBuffers) && forall k1 str :: has(partitionBuffers, k1) ==> ref(get(partitionBuffers, k1)) >= $alloc
+//@ loop 1 invariant [C10] ghost.tickerResets == old(ghost.tickerResets) && ghost.tickersMade == old(ghost.tickersMade) + 1
 //@ loop 0 invariant arr(doneChans) >= $alloc
 //@ loop 1 invariant arr(doneChans) >= $alloc
 
@@ -891,10 +939,26 @@ package bloomsearch
 //@ modifies ghost.unsafeViews
 //@ ensures ghost.unsafeViews == old(ghost.unsafeViews) + 1
 
+// ... and what the batcher is given is exactly that: the map the latest
+// successful materializeRow call returned (matRow), handed over once
+// (matPending), parsed from the bytes of the row that was just matched
+// (matArr/matOff/matLen). A delivered row is never a map obtained any other way
+// (a clone or a cached map would share its nested values with another row).
+//@ ghostvar matRow int        // identity of the map the last successful materializeRow call returned
+//@ ghostvar matPending bool   // ... and it has not been handed to the batcher yet
+//@ ghostvar matArr int        // the bytes it was parsed from: backing array,
+//@ ghostvar matOff int        // offset
+//@ ghostvar matLen int        // and length
 //@ func materializeRow
 //@ props C03 C02
-//@ modifies nothing
+//@ exit ghost.matRow = ref(result0)
+//@ exit ghost.matPending = result1 == nil
+//@ exit ghost.matArr = arr(rowBytes)
+//@ exit ghost.matOff = off(rowBytes)
+//@ exit ghost.matLen = len(rowBytes)
+//@ modifies ghost.matRow, ghost.matPending, ghost.matArr, ghost.matOff, ghost.matLen
 //@ ensures [C03] ghost.unsafeViews == old(ghost.unsafeViews)
+//@ ensures [C03] ghost.matRow == ref(result0) && (ghost.matPending <==> result1 == nil) && ghost.matArr == arr(rowBytes) && ghost.matOff == off(rowBytes) && ghost.matLen == len(rowBytes)
 
 // matchRowBytes walks the row through gjson and the tokenizer; its body is
 // outside the generator's reach, so this contract is an assumption: it writes
@@ -965,9 +1029,11 @@ package bloomsearch
 //@ props C02
 //@ requires b != nil && b.results != nil && b.slot != nil
 //@ requires [C02] ghost.matchedOK
+//@ requires [C03] ghost.matPending && ref(row) == ghost.matRow
 //@ entry ghost.matchedOK = false
+//@ entry ghost.matPending = false
 //@ entry ghost.rowsAdded = ghost.rowsAdded + 1
-//@ modifies b.batch, *b.slot, heap(map[string]any), ghost.matchedOK, ghost.rowsAdded, ghost.delivers, ghost.sends, ghost.nilsends, ghost.recvs, ghost.atomAdded
+//@ modifies b.batch, *b.slot, heap(map[string]any), ghost.matchedOK, ghost.matPending, ghost.rowsAdded, ghost.delivers, ghost.sends, ghost.nilsends, ghost.recvs, ghost.atomAdded
 //@ ensures ghost.rowsAdded == old(ghost.rowsAdded) + 1 && !ghost.matchedOK
 
 // processDataBlock: exactly one stats entry on every exit, never a "skipped"
@@ -976,14 +1042,15 @@ package bloomsearch
 // is batched only after matchRowBytes accepted it.
 //@ func (*BloomSearchEngine).processDataBlock
 //@ appends r.errs
-//@ props C02 C21 C22 C23
+//@ props C02 C03 C21 C22 C23
 //@ requires b != nil && r != nil && slot != nil && handles != nil && rowMatcher != nil
 //@ requires [C22] slot.held
-//@ modifies heaps, ghost.statsRecorded, ghost.statsSkipped, ghost.statsNonZeroSkipped, ghost.errsRecorded, ghost.hAcquired, ghost.hPut, ghost.hDiscarded, ghost.handleCloses, ghost.opens, ghost.matchedOK, ghost.rowsAdded, ghost.unsafeViews, ghost.delivers, ghost.bufOwned, ghost.everPooled, ghost.mutexLocks, ghost.mutexUnlocks, ghost.sends, ghost.nilsends, ghost.recvs, ghost.seekPos, ghost.stageIn, ghost.rowsScanned, ghost.scanErrs, ghost.atomAdded
+//@ modifies heaps, ghost.statsRecorded, ghost.statsSkipped, ghost.statsNonZeroSkipped, ghost.errsRecorded, ghost.hAcquired, ghost.hPut, ghost.hDiscarded, ghost.handleCloses, ghost.opens, ghost.matchedOK, ghost.rowsAdded, ghost.unsafeViews, ghost.delivers, ghost.bufOwned, ghost.everPooled, ghost.mutexLocks, ghost.mutexUnlocks, ghost.sends, ghost.nilsends, ghost.recvs, ghost.seekPos, ghost.stageIn, ghost.rowsScanned, ghost.scanErrs, ghost.atomAdded, ghost.matRow, ghost.matPending, ghost.matArr, ghost.matOff, ghost.matLen
 //@ loop 0 invariant ghost.statsRecorded == old(ghost.statsRecorded) && ghost.statsSkipped == old(ghost.statsSkipped) && ghost.hAcquired == old(ghost.hAcquired) + 1 && ghost.hPut == old(ghost.hPut) + 1 && ghost.hDiscarded == old(ghost.hDiscarded)
 //@ loop 0 invariant scanner != nil && 0 <= scanner.pos && scanner.pos <= len(scanner.data) && batcher.results == r && batcher.slot == slot && r != nil && slot != nil
 //@ at call (*fileHandlePool).acquire#1 assert [C22] slot.held
 //@ at call readPooledBlockRowData#1 assert [C22] slot.held
+//@ at call (*rowBatcher).add#1 assert [C03] ghost.matArr == arr(rowBytes) && ghost.matOff == off(rowBytes) && ghost.matLen == len(rowBytes)
 //@ at call (*fileHandlePool).put#1 assert [C21] err == nil
 //@ ensures [C23] ghost.statsRecorded == old(ghost.statsRecorded) + 1 && ghost.statsSkipped == old(ghost.statsSkipped)
 //@ ensures [C21] ghost.hAcquired - old(ghost.hAcquired) == (ghost.hPut - old(ghost.hPut)) + (ghost.hDiscarded - old(ghost.hDiscarded))
@@ -1298,6 +1365,61 @@ package bloomsearch
 //@ loop 0 invariant (exists x in expressions[:$index + 1] :: ranyOf(x, expressionType)) ==> (exists f in flattened :: rev(f))
 //@ ensures (forall f in result :: rev(f)) <==> (forall x in expressions :: rallOf(x, expressionType))
 //@ ensures (exists f in result :: rev(f)) <==> (exists x in expressions :: ranyOf(x, expressionType))
+// The regex field guard and the regex compiler walk the same tree and must drop
+// the same nodes, or the guard prunes on a field the compiled expression does not
+// require (an OR whose always-true branch the guard lost demands the other
+// branch's field: rows vanish). Both are pinned to one dropping rule: a node
+// yields nothing exactly when it is nil or a condition node without a condition
+// (the guard additionally yields nothing for unknown node kinds, which the
+// compiler rejects with an error); an AND/OR node — EMPTY ONES INCLUDED — yields
+// a node of the same kind whose child count is the number of children that
+// yield something (fold over the children, any number of them); a condition
+// yields the field-presence test for its own field. Verified at the recursive
+// calls against this same contract.
+//@ pred rdropped(x RegexExpression) = x.ExpressionType == RegexExpressionCondition && x.Condition == nil
+//@ pred rknown(x RegexExpression) = x.ExpressionType == RegexExpressionCondition || x.ExpressionType == RegexExpressionAnd || x.ExpressionType == RegexExpressionOr
+//@ pred gkept(s []RegexExpression) = sum ch in s :: ((rdropped(ch) || !rknown(ch)) ? 0 : 1)
+//@ pred ckept(s []RegexExpression) = sum ch in s :: (rdropped(ch) ? 0 : 1)
+//@ func regexExpressionToBloomFieldExpression
+//@ props C25
+//@ modifies nothing
+//@ loop 0 invariant -1 <= $index && $index < len(expression.Children) && len(children) == gkept(expression.Children[:$index + 1])
+//@ loop 1 invariant -1 <= $index && $index < len(expression.Children) && len(children) == gkept(expression.Children[:$index + 1])
+//@ ensures result == nil <==> (expression == nil || rdropped(*expression) || !rknown(*expression))
+//@ ensures result != nil && expression.ExpressionType == RegexExpressionCondition ==> result.ExpressionType == BloomExpressionCondition && result.Condition != nil && result.Condition.Type == BloomField && result.Condition.Field == expression.Condition.Field
+//@ ensures result != nil && expression.ExpressionType == RegexExpressionAnd ==> result.ExpressionType == BloomExpressionAnd && result.Condition == nil && len(result.Children) == gkept(expression.Children)
+//@ ensures result != nil && expression.ExpressionType == RegexExpressionOr ==> result.ExpressionType == BloomExpressionOr && result.Condition == nil && len(result.Children) == gkept(expression.Children)
+
+// The guard query wraps that expression and nothing else; combining it with the
+// caller's bloom query is the AND of the two (a missing side contributes nothing).
+//@ func RegexFieldGuardBloomQuery
+//@ props C25
+//@ modifies nothing
+//@ ensures result == nil <==> (query == nil || query.Expression == nil || rdropped(*query.Expression) || !rknown(*query.Expression))
+//@ ensures result != nil ==> result.Expression != nil && (query.Expression.ExpressionType == RegexExpressionAnd ==> result.Expression.ExpressionType == BloomExpressionAnd && len(result.Expression.Children) == gkept(query.Expression.Children)) && (query.Expression.ExpressionType == RegexExpressionOr ==> result.Expression.ExpressionType == BloomExpressionOr && len(result.Expression.Children) == gkept(query.Expression.Children)) && (query.Expression.ExpressionType == RegexExpressionCondition ==> result.Expression.ExpressionType == BloomExpressionCondition && result.Expression.Condition != nil && result.Expression.Condition.Type == BloomField && result.Expression.Condition.Field == query.Expression.Condition.Field)
+//@ func AndBloomQueries
+//@   heapfacts
+//@ props C25
+//@ modifies nothing
+//@ ensures (left == nil || left.Expression == nil) ==> result == right
+//@ ensures !(left == nil || left.Expression == nil) && (right == nil || right.Expression == nil) ==> result == left
+//@ ensures !(left == nil || left.Expression == nil) && !(right == nil || right.Expression == nil) ==> result != nil && result.Expression != nil && result.Expression.ExpressionType == BloomExpressionAnd && result.Expression.Condition == nil
+//@ ensures !(left == nil || left.Expression == nil) && !(right == nil || right.Expression == nil) ==> ((forall c in result.Expression.Children :: ev(c)) <==> (ballOf(*left.Expression, BloomExpressionAnd) && ballOf(*right.Expression, BloomExpressionAnd)))
+
+//@ extern regexp.Compile
+//@ modifies nothing
+//@ ensures result1 == nil ==> result0 != nil
+
+//@ func compileRegexExpression
+//@ props C25
+//@ modifies nothing
+//@ loop 0 invariant -1 <= $index && $index < len(expression.Children) && len(children) == ckept(expression.Children[:$index + 1])
+//@ ensures result1 == nil ==> (result0 == nil <==> (expression == nil || rdropped(*expression)))
+//@ ensures result1 == nil && expression != nil ==> rknown(*expression)
+//@ ensures result1 == nil && result0 != nil ==> result0.expressionType == expression.ExpressionType
+//@ ensures result1 == nil && result0 != nil && expression.ExpressionType == RegexExpressionCondition ==> result0.condition != nil && result0.condition.field == expression.Condition.Field
+//@ ensures result1 == nil && result0 != nil && expression.ExpressionType != RegexExpressionCondition ==> result0.condition == nil && len(result0.children) == ckept(expression.Children)
+
 //@ func RegexAnd
 //@   heapfacts
 //@ props C25
@@ -1399,13 +1521,26 @@ package bloomsearch
 // nil; on every failure after CreateFile it aborts and tombstones its own
 // output exactly once. It never calls Update.
 //@ func (*BloomSearchEngine).executeMergeGroup
-//@ props C13 C17 C18
+//@ props C11 C13 C17 C18
+// C11/C12 (one partition per combined block): the per-partition index lists handed to processPartitionBlocks hold only
+// valid indices of blocks of that partition (the partition map is filled by this
+// loop, for any number of blocks and partitions).
+//@ pred partOK(xs []int, bs []blockWithFile, p str) = forall x in xs :: 0 <= x && x < len(bs) && bs[x].block.PartitionID == p
+//@ loop 2 invariant [C11] -1 <= $index && forall p str :: has(partitionBlocks, p) ==> arr(get(partitionBlocks, p)) >= $alloc && arr(get(partitionBlocks, p)) != refof(currentOffset) && partOK(get(partitionBlocks, p), allBlocks, p)
+//@ loop 3 invariant [C11] forall p str :: has(partitionBlocks, p) ==> arr(get(partitionBlocks, p)) >= $alloc && arr(get(partitionBlocks, p)) != refof(currentOffset) && partOK(get(partitionBlocks, p), allBlocks, p)
 //@ heapfacts []DataBlockMetadata, bloomEntrySets
 //@ requires b != nil
 // C17: the metadata returned for a merged file describes the layout that was
 // written — rows end where the filter region starts, the region holds the
 // sections back to back in block order and ends at offset+size.
 //@ loop 3 invariant [C17] rowsOK(newDataBlocks, currentOffset) && sectionsAt(newDataBlocks, 0, len(filterRegion.buf.buf) - filterRegion.buf.off) && storeWriter(writer)
+// C13 (only durable output is committed): the output's bytes go straight to the
+// writer DataStore.CreateFile handed out — whose Write errors the callees return
+// (their C17 accounting) and which fail the group — not through a buffering
+// layer whose flush error could be dropped.
+//@ loop 3 invariant [C13] storeWriter(writer)
+//@ at call (*blockFilterRegionWriter).finish#1 assert [C13] storeWriter($arg1) && $arg1 == writer
+//@ at call WriteFileFooter#1 assert [C13] storeWriter($arg0) && $arg0 == writer
 //@ loop 3 invariant [C17,C18] setsOK(fileEntries)
 // (stepping stones: the same two facts where the footer is written, so that the
 // postconditions only have to carry them across Close)
@@ -1459,11 +1594,19 @@ package bloomsearch
 // through copyDataBlock or mergeDataBlocks, so the layout invariants carry over
 // the whole partition and the bytes handed to the writer add up to the offset
 // advance.
+//@ specfun mkey(b DataBlockMetadata) str
+//@ func blockMergeKey
+//@ props C12
+//@ assumed sort.Strings / varint-encoding body; the key is taken to be a function of the block record (its partition ID and minmax key set)
+//@ pure
+//@ ensures result == mkey(*block)
+
 //@ func (*BloomSearchEngine).processPartitionBlocks
 //@ props C17 C18
 //@ heapfacts []DataBlockMetadata, bloomEntrySets
 //@ requires b != nil && currentOffset != nil && newDataBlocks != nil && fileEntries != nil && filterRegion != nil
 //@ requires [C17] rowsOK(*newDataBlocks, *currentOffset) && sectionsAt(*newDataBlocks, 0, regionLen(filterRegion)) && storeWriter(writer)
+//@ requires [C13] storeWriter(writer)
 //@ requires [C17,C18] setsOK(fileEntries)
 //@ modifies heaps, ghost.pinned, ghost.unsafeViews, ghost.opens, ghost.handleCloses, ghost.writes, ghost.written, ghost.unions, ghost.layoutOvf, ghost.seekPos, ghost.stageIn, ghost.rowsScanned, ghost.scanErrs, ghost.lastBuiltFrom
 //@ pred untouched(nb *[]DataBlockMetadata, co *int, fr *blockFilterRegionWriter, w iface) = *nb == old(*nb) && *co == old(*co) && regionLen(fr) == old(regionLen(fr)) && ghost.layoutOvf == old(ghost.layoutOvf) && ghost.written[wid(w)] == old(ghost.written[wid(w)]) && sameelems(*nb)
@@ -1494,21 +1637,77 @@ package bloomsearch
 //@ requires [C12] forall bw in allBlocks :: cntOK(bw.block.Rows) && cntOK(bw.block.UncompressedSize)
 //@ requires [C12] cntOK(b.config.MaxRowGroupRows) && cntOK(b.config.MaxRowGroupBytes)
 //@ loop 1 invariant [C12,C04,C11] forall g in mergeGroups :: arr(g) >= $alloc && arr(g) < old($alloc)
-//@ loop 1 invariant [C12] forall g in mergeGroups :: grpOK(g, allBlocks, b)
+//@ loop 1 invariant [C12:size] forall g in mergeGroups :: grpOK(g, allBlocks, b)
 //@ loop 2 invariant [C12,C04,C11] forall g in mergeGroups :: arr(g) >= $alloc && arr(g) < old($alloc)
-//@ loop 2 invariant [C12] forall g in mergeGroups :: grpOK(g, allBlocks, b)
+//@ loop 2 invariant [C12:size] forall g in mergeGroups :: grpOK(g, allBlocks, b)
 //@ loop 3 invariant [C12,C04,C11] forall g in mergeGroups :: arr(g) >= $alloc && arr(g) < old($alloc)
-//@ loop 3 invariant [C12] forall g in mergeGroups :: grpOK(g, allBlocks, b)
+//@ loop 3 invariant [C12:size] forall g in mergeGroups :: grpOK(g, allBlocks, b)
 //@ loop 3 invariant [C12,C04,C11] len(currentGroup) >= 1 && arr(currentGroup) >= $alloc && arr(currentGroup) < old($alloc)
-//@ loop 3 invariant [C12] currentRows == grpRows(currentGroup, allBlocks)
-//@ loop 3 invariant [C12] currentSize == grpSize(currentGroup, allBlocks)
-//@ loop 3 invariant [C12] len(currentGroup) > 1 ==> currentRows <= b.config.MaxRowGroupRows && currentSize <= b.config.MaxRowGroupBytes
-//@ loop 3 invariant [C12] cntOK(currentRows) && cntOK(currentSize)
+//@ loop 3 invariant [C12:size] currentRows == grpRows(currentGroup, allBlocks)
+//@ loop 3 invariant [C12:size] currentSize == grpSize(currentGroup, allBlocks)
+//@ loop 3 invariant [C12:size] len(currentGroup) > 1 ==> currentRows <= b.config.MaxRowGroupRows && currentSize <= b.config.MaxRowGroupBytes
+//@ loop 3 invariant [C12:size] cntOK(currentRows) && cntOK(currentSize)
+// C12, "combines only rows of one partition whose source blocks had the same
+// minmax key set": mkey names whatever blockMergeKey returns for a block record
+// (assumed to be a function of the record — partition ID and minmax key set; its
+// sort-and-encode body is not verified). Every bucket holds only blocks whose key
+// IS the bucket's key and whose partition is this call's partition (loop 0, over
+// any number of blocks and buckets); a group is filled from one bucket only; and
+// the group handed to mergeDataBlocks is checked against that (its precondition).
+//@ pred sameKind(g []int, bs []blockWithFile, k str, pid str) = forall x in g :: 0 <= x && x < len(bs) && mkey(bs[x].block) == k && bs[x].block.PartitionID == pid
+//@ pred oneKind(g []int, bs []blockWithFile, pid str) = forall x in g :: 0 <= x && x < len(bs) && mkey(bs[x].block) == mkey(bs[g[0]].block) && bs[x].block.PartitionID == pid
+//@ requires [C11,C12] forall x in blockIndices :: 0 <= x && x < len(allBlocks) && allBlocks[x].block.PartitionID == partitionID
+//@ loop 0 invariant [C12:kind] forall k str :: has(buckets, k) ==> arr(get(buckets, k)) >= $alloc
+//@ loop 0 invariant [C12:kind] forall k str :: has(buckets, k) ==> sameKind(get(buckets, k), allBlocks, k, partitionID)
+//@ loop 1 invariant [C12:kind] forall k str :: has(buckets, k) ==> arr(get(buckets, k)) >= $alloc
+//@ loop 1 invariant [C12:kind] forall k str :: has(buckets, k) ==> sameKind(get(buckets, k), allBlocks, k, partitionID)
+//@ loop 1 invariant [C12:kind] forall g in mergeGroups :: oneKind(g, allBlocks, partitionID)
+//@ loop 2 invariant [C12:kind] forall k str :: has(buckets, k) ==> arr(get(buckets, k)) >= $alloc
+//@ loop 2 invariant [C12:kind] forall k str :: has(buckets, k) ==> sameKind(get(buckets, k), allBlocks, k, partitionID)
+//@ loop 2 invariant [C12:kind] -1 <= $index && arr(bucket) >= $alloc && sameKind(bucket, allBlocks, key, partitionID)
+//@ loop 2 invariant [C12:kind] forall g in mergeGroups :: oneKind(g, allBlocks, partitionID)
+//@ loop 3 invariant [C12:kind] forall k str :: has(buckets, k) ==> arr(get(buckets, k)) >= $alloc
+//@ loop 3 invariant [C12:kind] forall k str :: has(buckets, k) ==> sameKind(get(buckets, k), allBlocks, k, partitionID)
+//@ loop 3 invariant [C12:kind] 0 <= s && s < len(bucket) && arr(bucket) >= $alloc && sameKind(bucket, allBlocks, key, partitionID)
+//@ loop 3 invariant [C12:kind] sameKind(currentGroup, allBlocks, key, partitionID)
+//@ loop 3 invariant [C12:kind] forall g in mergeGroups :: oneKind(g, allBlocks, partitionID)
+//@ loop 4 invariant [C12:kind] forall g in mergeGroups :: oneKind(g, allBlocks, partitionID)
+// Of what existed before the call, processPartitionBlocks writes no index list
+// and no map of index lists (its buckets are its own).
+//@ loop 0 invariant [C11:frame,C12:frame] cellsframe(currentOffset) && premaps("map[string][]int")
+//@ loop 1 invariant [C11:frame,C12:frame] cellsframe(currentOffset) && premaps("map[string][]int")
+//@ loop 2 invariant [C11:frame,C12:frame] cellsframe(currentOffset) && premaps("map[string][]int")
+//@ loop 3 invariant [C11:frame,C12:frame] cellsframe(currentOffset) && premaps("map[string][]int")
+//@ loop 4 invariant [C11:frame,C12:frame] cellsframe(currentOffset) && premaps("map[string][]int")
+//@ ensures [C11,C12] cellsframe(currentOffset) && premaps("map[string][]int")
+// C11, no block is lost or duplicated between the buckets and the groups: the
+// groups hold, in total, exactly as many members as the buckets hold blocks. By
+// counting with folds, for any number of buckets, blocks and groups: while a
+// bucket is being grouped, (members placed so far, including the group being
+// filled) = (the blocks of the buckets already done) + (the positions of this
+// bucket marked used); every position up to the current seed is marked, so when
+// the bucket is finished all of its positions are and the count has grown by
+// exactly len(bucket). A position is marked only together with being placed in
+// a group, and a seed that is not yet marked always opens a group that is then
+// appended. (That loop 0 puts every index into exactly one bucket is not part of
+// this count — see DESIGN.)
+//@ sumcount [C11]
+//@ pred members(gs [][]int) = sum g in gs :: len(g)
+//@ pred nused(u []bool) = sum x in u :: (x ? 1 : 0)
+//@ pred bucketed(ks []string, m map[string][]int) = sum k in ks :: len(m[k])
+//@ loop 1 invariant [C11:count] -1 <= $index && $index < len(bucketOrder) && members(mergeGroups) == bucketed(bucketOrder[:$index + 1], buckets)
+//@ loop 2 invariant [C11:count] 0 <= $index1 + 1 && $index1 + 1 < len(bucketOrder) && key == bucketOrder[$index1 + 1] && len(used) == len(bucket) && len(bucket) == len(buckets[key]) && -1 <= $index
+//@ loop 2 invariant [C11:count] forall t :: 0 <= t && t <= $index && t < len(used) ==> used[t]
+//@ loop 2 invariant [C11:count] members(mergeGroups) == bucketed(bucketOrder[:$index1 + 1], buckets) + nused(used)
+//@ loop 3 invariant [C11:count] 0 <= $index1 + 1 && $index1 + 1 < len(bucketOrder) && key == bucketOrder[$index1 + 1] && len(used) == len(bucket) && len(bucket) == len(buckets[key]) && 0 <= s && s < len(bucket) && s + 1 <= o && s == $index2 + 1
+//@ loop 3 invariant [C11:count] forall t :: 0 <= t && t <= s ==> used[t]
+//@ loop 3 invariant [C11:count] members(mergeGroups) + len(currentGroup) == bucketed(bucketOrder[:$index1 + 1], buckets) + nused(used)
+//@ loop 4 invariant [C11:count] members(mergeGroups) == bucketed(bucketOrder, buckets)
 // The groups are then dispatched as they were formed: the callees write no
 // index list (of the int objects that exist they change only *currentOffset),
 // so each combined block is built from a group that satisfies the limits.
 //@ loop 4 invariant [C12,C04,C11] forall g in mergeGroups :: arr(g) >= $alloc && arr(g) < old($alloc)
-//@ loop 4 invariant [C12] forall g in mergeGroups :: grpOK(g, allBlocks, b)
+//@ loop 4 invariant [C12:size] forall g in mergeGroups :: grpOK(g, allBlocks, b)
 
 // finish writes the whole buffered region and rebases every block's section
 // offset by the region's position; nothing else in the records changes.
@@ -1650,7 +1849,7 @@ package bloomsearch
 
 //@ func (*BloomSearchEngine).copyDataBlock
 //@ props C18 C17
-//@ ensures [C12] cellsframe(currentOffset)     // of the int objects that existed, only *currentOffset is written
+//@ ensures [C11,C12] cellsframe(currentOffset)     // of the int objects that existed, only *currentOffset is written
 //@ heapfacts []DataBlockMetadata, bloomEntrySets
 //@ requires b != nil && currentOffset != nil && newDataBlocks != nil && fileEntries != nil && filterRegion != nil
 // C17: a copied block lands at the output's current offset with its original
@@ -1678,7 +1877,8 @@ package bloomsearch
 //@ pred sameContent(a DataBlockMetadata, c DataBlockMetadata) = a.PartitionID == c.PartitionID && a.MinMaxIndexes == c.MinMaxIndexes && a.Rows == c.Rows && a.RowDataSize == c.RowDataSize && a.UncompressedSize == c.UncompressedSize && a.Compression == c.Compression && a.RowDataHash == c.RowDataHash && a.HasRowDataHash == c.HasRowDataHash
 //@ ensures [C11] ghost.scanErrs > old(ghost.scanErrs) ==> result != nil
 //@ loop 0 invariant [C11] ghost.scanErrs == old(ghost.scanErrs)
-//@ ensures [C11] result == nil ==> len(*newDataBlocks) == old(len(*newDataBlocks)) + 1 && sameContent((*newDataBlocks)[len(*newDataBlocks) - 1], bwf.block)
+// (C17 too: the bytes are copied verbatim, so the record must keep describing them — compression, hash, sizes)
+//@ ensures [C11,C17] result == nil ==> len(*newDataBlocks) == old(len(*newDataBlocks)) + 1 && sameContent((*newDataBlocks)[len(*newDataBlocks) - 1], bwf.block)
 //@ appends *newDataBlocks
 //@ modifies heaps, ghost.pinned, ghost.unsafeViews, ghost.opens, ghost.handleCloses, ghost.writes, ghost.written, ghost.layoutOvf, ghost.seekPos, ghost.stageIn, ghost.rowsScanned, ghost.scanErrs
 //@ loop 0 invariant forall a :: ghost.pinned[a] ==> a >= $alloc && a != 0
@@ -1691,8 +1891,9 @@ package bloomsearch
 // C12: this is where blocks are combined into one — the group handed in holds at
 // most MaxRowGroupRows rows and MaxRowGroupBytes uncompressed bytes in total
 // (by the source blocks' own counters).
+//@ requires [C12] oneKind(groupIndices, allBlocks, partitionID)
 //@ requires [C12] len(groupIndices) > 1 ==> grpRows(groupIndices, allBlocks) <= b.config.MaxRowGroupRows && grpSize(groupIndices, allBlocks) <= b.config.MaxRowGroupBytes
-//@ ensures [C12] cellsframe(currentOffset)     // of the int objects that existed, only *currentOffset is written
+//@ ensures [C11,C12] cellsframe(currentOffset)     // of the int objects that existed, only *currentOffset is written
 //@ heapfacts []DataBlockMetadata, bloomEntrySets
 // C17: same layout obligations as copyDataBlock, for a rebuilt block.
 //@ requires [C17] rowsOK(*newDataBlocks, *currentOffset) && sectionsAt(*newDataBlocks, 0, regionLen(filterRegion))
@@ -1767,6 +1968,7 @@ package bloomsearch
 // property says.
 //@ func (*BloomSearchEngine).merge
 //@ props C13
+//@ requires [C12] cntOK(b.config.MaxFileSize)
 //@ requires b != nil
 // C12: the files one Merge call removes are exactly the files of the groups
 // identifyFileMergeGroups formed (one delete operation per group member, for any
@@ -2086,8 +2288,10 @@ package bloomsearch
 //@ ensures [C19,C17] result2 == nil ==> regionFits(result0, fileSize(r))
 //@ ensures [C19,C17] result2 == nil ==> forall k :: 0 <= k && k < len(result0.DataBlocks) ==> blockFits(result0.DataBlocks[k], result0.BlockFilterRegionOffset, result0.BlockFilterRegionOffset + result0.BlockFilterRegionSize)
 
+// (C11 as well: a merged block's rebuilt filters answer the post-merge queries, so
+// the source rows must stay intact — not pooled, not refilled — until then)
 //@ func (*BloomSearchEngine).loadBlockRowData
-//@ props C19 C13 C18
+//@ props C11 C19 C13 C18
 //@ safety
 //@ requires b != nil
 //@ modifies heaps, ghost.opens, ghost.handleCloses, ghost.seekPos
@@ -2239,6 +2443,28 @@ package bloomsearch
 //@ loop 5 invariant [C12] totalFilesInGroups == filesIn(mergeGroups) && totalFilesInGroups >= 0 && totalFilesInGroups < b.config.MaxFilesToMergePerOperation
 //@ loop 5 invariant [C12] forall g in mergeGroups :: len(g) >= 2
 //@ loop 5 invariant [C12] len(currentGroup) >= 2 && totalFilesInGroups + len(currentGroup) <= b.config.MaxFilesToMergePerOperation
+// MaxFileSize: the files of a group total at most MaxFileSize bytes (fold over the
+// group's members, any number of them) — stated for groups none of whose members
+// has a size outside [0, 2^62) (oddSizes counts those members; it is a property
+// of the group itself, so nothing about the sort that reorders the candidates,
+// and nothing about the stored statistics, has to be assumed).
+//@ sumnonneg
+//@ pred oddSizes(g []fileMergeCandidate) = sum f in g :: (cntOK(f.statistics.totalSize) ? 0 : 1)
+//@ pred sizeOf(g []fileMergeCandidate) = sum f in g :: f.statistics.totalSize
+//@ pred sizedOK(g []fileMergeCandidate, sz int, e *BloomSearchEngine) = oddSizes(g) == 0 ==> sz == sizeOf(g) && cntOK(sz) && (len(g) > 1 ==> sz <= e.config.MaxFileSize)
+//@ requires [C12] cntOK(b.config.MaxFileSize)
+//@ loop 3 invariant [C12] len(currentGroup) >= 1 && arr(currentGroup) >= $alloc && sizedOK(currentGroup, currentGroupSize, b)
+//@ loop 4 invariant [C12] len(currentGroup) >= 1 && arr(currentGroup) >= $alloc && sizedOK(currentGroup, currentGroupSize, b)
+//@ loop 5 invariant [C12] len(currentGroup) >= 1 && arr(currentGroup) >= $alloc && sizedOK(currentGroup, currentGroupSize, b)
+//@ loop 2 invariant [C12] forall g in mergeGroups :: arr(g) >= $alloc
+//@ loop 2 invariant [C12] forall g in mergeGroups :: oddSizes(g) == 0 ==> sizeOf(g) <= b.config.MaxFileSize
+//@ loop 3 invariant [C12] forall g in mergeGroups :: arr(g) >= $alloc
+//@ loop 3 invariant [C12] forall g in mergeGroups :: oddSizes(g) == 0 ==> sizeOf(g) <= b.config.MaxFileSize
+//@ loop 4 invariant [C12] forall g in mergeGroups :: arr(g) >= $alloc
+//@ loop 4 invariant [C12] forall g in mergeGroups :: oddSizes(g) == 0 ==> sizeOf(g) <= b.config.MaxFileSize
+//@ loop 5 invariant [C12] forall g in mergeGroups :: arr(g) >= $alloc
+//@ loop 5 invariant [C12] forall g in mergeGroups :: oddSizes(g) == 0 ==> sizeOf(g) <= b.config.MaxFileSize
+//@ ensures [C12] forall g in result :: oddSizes(g) == 0 ==> sizeOf(g) <= b.config.MaxFileSize
 //@ ensures [C12] filesIn(result) == 0 || filesIn(result) <= b.config.MaxFilesToMergePerOperation
 //@ ensures [C12] forall g in result :: len(g) >= 2
 
@@ -2434,3 +2660,52 @@ package bloomsearch
 //@ loop 0 invariant [C21] ghost.retains - old(ghost.retains) == (ghost.releases - old(ghost.releases)) + (sent(blockJobs) - old(sent(blockJobs)))
 //@ loop 1 invariant [C21] ghost.retains - old(ghost.retains) == (ghost.releases - old(ghost.releases)) + (sent(blockJobs) - old(sent(blockJobs))) + 1
 //@ ensures [C21] ghost.retains - old(ghost.retains) == (ghost.releases - old(ghost.releases)) + (sent(blockJobs) - old(sent(blockJobs)))
+
+// Query (C20, "queries work the same on engines that were never started or are
+// stopped"): the query path registers no callback on any context — nothing but
+// the caller's context (through newResults) and the cursor's own Close can
+// cancel the cursor from outside; in particular the engine's lifecycle context
+// is not wired to it.
+//@ func (*BloomSearchEngine).Query
+//@ props C20
+//@ requires b != nil
+//@ modifies all
+//@ ensures [C20] ghost.afterFuncs == old(ghost.afterFuncs)
+
+// flushWorker (C09): the one consumer of the flush queue handles requests one at
+// a time, itself: it starts no goroutine, in the steady state and while draining.
+//@ func (*BloomSearchEngine).flushWorker
+//@ props C09
+//@ requires b != nil
+//@ modifies all
+//@ loop 0 invariant [C09] ghost.gos == old(ghost.gos)
+//@ loop 1 invariant [C09] ghost.gos == old(ghost.gos)
+//@ ensures [C09] ghost.gos == old(ghost.gos)
+
+// appendFoldedWord (C01, the default tokenizer's fast path — ingest, merge and
+// row verification all fold words through it): what it appends for a non-ASCII
+// rune is the encoding of unicode.ToLower of the rune it just decoded — for every
+// rune, not just the upper-case category (title-case letters, Roman numerals and
+// circled letters have lower-case mappings too) — and it advances by exactly the
+// decoded size; an ASCII byte is appended with 'A'..'Z' moved to 'a'..'z' and
+// every other byte unchanged. ulow names unicode.ToLower (the tables themselves
+// are the library's).
+//@ specfun ulow(r int) int
+//@ ghostvar lastRune int      // the rune utf8.DecodeRuneInString returned last
+//@ ghostvar lastRuneSize int  // ... and its size
+//@ extern utf8.DecodeRuneInString
+//@ exit ghost.lastRune = result0
+//@ exit ghost.lastRuneSize = result1
+//@ modifies ghost.lastRune, ghost.lastRuneSize
+//@ ensures ghost.lastRune == result0 && ghost.lastRuneSize == result1 && (len(s) > 0 ==> 1 <= result1 && result1 <= len(s))
+//@ extern unicode.ToLower
+//@ pure
+//@ ensures result == ulow(r)
+//@ extern utf8.AppendRune
+//@ modifies nothing
+//@ func appendFoldedWord
+//@ appends dst
+//@ props C01
+//@ modifies heap(byte), ghost.lastRune, ghost.lastRuneSize
+//@ loop 0 invariant 0 <= i
+//@ at call utf8.AppendRune#1 assert [C01] $arg1 == ulow(ghost.lastRune)
